@@ -2714,9 +2714,12 @@ def prune_unused_graph_inputs_ir(graph: ir.Graph) -> None:
         if not name:
             return True
         # Preserve positional graph inputs that correspond to original JAX
-        # function arguments (named ``in_<index>`` by IRContext.add_input_for_invar).
+        # function arguments (named ``in_<index>`` by IRContext.add_input_for_invar,
+        # or ``in_<index>_nchw`` by _LayoutAdapter.bind_input for inputs_as_nchw).
         if name.startswith("in_"):
             suffix = name[3:]
+            if suffix.endswith("_nchw"):
+                suffix = suffix[: -len("_nchw")]
             if suffix.isdigit():
                 return True
         return False
